@@ -85,8 +85,9 @@ impl IntArray {
     }
 
     /// Checks an array that was not created by the parser or by the constructors above
-    /// (e.g. a deserialized one): its ids can be iterated and each id is there only once.
-    pub fn validate(&self) -> Result<(), String> {
+    /// (e.g. a deserialized one): its ids can be iterated. An id may be there more than once,
+    /// which is harmless for an array that only selects existing objects.
+    pub fn validate_ranges(&self) -> Result<(), String> {
         for range in &self.ranges {
             if range.step == 0 {
                 return Err(format!("range starting at {} has zero step", range.start));
@@ -98,6 +99,12 @@ impl IntArray {
                 ));
             }
         }
+        Ok(())
+    }
+
+    /// Like `validate_ranges` and moreover each id is there only once.
+    pub fn validate(&self) -> Result<(), String> {
+        self.validate_ranges()?;
         let mut ids = Set::new();
         match self.iter().find(|id| !ids.insert(*id)) {
             Some(id) => Err(format!("id {id} is there more than once")),
